@@ -1,9 +1,129 @@
-(* C20 -- style settings resolve by precedence and never leak *)
+(* C20 -- style settings resolve by precedence and never leak.
+   All statements are about the executable model Model/StyleModel.v run on the schema, the DEFAULTS tree, the
+   constructor table and the colour table that translate/gen_style.py regenerates from /repo on every run
+   (Gen/GenStyle.v).  Quantification is over EVERY style class / object class / leaf of that schema, every
+   notation, every combination of sources; values range over the per-validator samples of Model/StyleSpec.v
+   (sample_vals / two / sv), which is why the schema-wide theorems carry the suffix _partial. *)
 From Coq Require Import ZArith List Bool String.
-From MV Require Import Lib.STree Model.StyleModel Gen.GenStyle Model.StyleExec Proofs.StyleProofs.
+From MV Require Import Lib.STree Model.StyleModel Gen.GenStyle Model.StyleExec Model.StyleSpec.
+From MV Require Import Proofs.StyleLW Proofs.StyleReset Proofs.StylePrec Proofs.StyleGen.
 Import ListNotations.
 Open Scope string_scope.
 
-Theorem defaults_are_valid : snd (defaults_new colors defaults_schema DEFAULTS) = None.
-Proof. exact defaults_build_ok. Qed.
-Print Assumptions defaults_are_valid.
+(* ---- the generic dictionary mechanisms, for all inputs (induction) ---- *)
+
+(* underscore keyword == nested dictionary: a key made of separator-free segments joined by "_" is parsed by
+   magic_to_dict into exactly the nested dictionary *)
+Theorem notations_equivalent_magic_to_dict :
+  forall (k0 : string) (rest : path) (o : option val),
+    Forall (fun seg => has_char us seg = false) (k0 :: rest) ->
+    magic_to_dict [(join_with "_" (k0 :: rest), Leaf o)] = [(k0, nest rest (Leaf o))].
+Proof. exact magic_to_dict_join. Qed.
+Print Assumptions notations_equivalent_magic_to_dict.
+
+(* ... and the hypothesis holds for every property name of every generated schema *)
+Theorem schema_keys_separator_free :
+  forall cs n, In cs (("defaults", defaults_schema) :: style_classes) -> In n (all_names (snd cs)) ->
+               has_char us n = false.
+Proof. exact separator_free_forall. Qed.
+Print Assumptions schema_keys_separator_free.
+
+(* last assignment wins in update_nested_dict, whatever the dictionary was before (any history) *)
+Theorem last_assignment_wins_merge :
+  forall (p : path) (d : tree) (o : option val), p <> [] ->
+    tget p (und false false d (nest p (Leaf o))) = Some (Leaf o).
+Proof. exact und_nest_get. Qed.
+Print Assumptions last_assignment_wins_merge.
+
+(* filling defaults (replace_None_only) never overrides a value that is already set: precedence of the
+   object / show value over every default, for arbitrary dictionaries *)
+Theorem precedence_merge_keeps_own_value :
+  forall (p : path) (d u : tree) (x : val) (sko : bool),
+    tget p d = Some (Leaf (Some x)) -> tget p (und sko true d u) = Some (Leaf (Some x)).
+Proof. exact und_fill_keeps. Qed.
+Print Assumptions precedence_merge_keeps_own_value.
+
+(* ---- schema-wide, by computation over GenStyle ---- *)
+
+Theorem last_assignment_wins_and_notations_equivalent_partial :
+  forall cs p k al v1 v2 n1 n2,
+    In cs style_classes -> In (p, k, al) (sleaves (snd cs)) -> shadowed (snd cs) p = false ->
+    In v1 (two k) -> In v2 (two k) -> In n1 (notations p) -> In n2 (notations p) ->
+    lw_holds (snd cs) p v1 v2 n1 n2 = true.
+Proof. exact lw_forall. Qed.
+Print Assumptions last_assignment_wins_and_notations_equivalent_partial.
+
+(* without the exclusion of alias-shadowed leaves the clause is false in the faithful model *)
+Theorem last_assignment_wins_refuted :
+  ~ (forall cs p k al v1 v2 n1 n2,
+       In cs style_classes -> In (p, k, al) (sleaves (snd cs)) ->
+       In v1 (two k) -> In v2 (two k) -> In n1 (notations p) -> In n2 (notations p) ->
+       lw_holds (snd cs) p v1 v2 n1 n2 = true).
+Proof. exact lw_unrestricted_false. Qed.
+Print Assumptions last_assignment_wins_refuted.
+
+Theorem invalid_names_and_values_rejected_partial :
+  forall cs p k al n,
+    In cs style_classes -> In (p, k, al) (sleaves (snd cs)) -> In n (notations p) ->
+    rejects_name (snd cs) p n = true /\
+    forall v, In v (bad_vals k) -> rejects_value (snd cs) p v n = true.
+Proof. exact reject_forall. Qed.
+Print Assumptions invalid_names_and_values_rejected_partial.
+
+Theorem precedence_partial :
+  forall cls p k src nested n,
+    In cls public_classes -> In (p, k, false) (sleaves (class_schema cls)) -> prec_leaf k p = true ->
+    shadowed (class_schema cls) p = false -> In src all_sources -> In (nested, n) prec_variants ->
+    prec_holds cls p (sv k 0) (sv k 1) (sv k 2) (sv k 3) src nested n = true.
+Proof. exact prec_forall. Qed.
+Print Assumptions precedence_partial.
+
+Theorem precedence_refuted :
+  prec_holds "Cuboid" ["magnetization"; "arrow"; "size"] (VInt 2) (VFlt 1 2) (VInt 0) (VInt 2)
+             (mkSrc true true false false) false NAttr = false.
+Proof. exact prec_alias_witness. Qed.
+Print Assumptions precedence_refuted.
+
+Theorem fresh_settings_hold_the_literal_defaults :
+  forall p k al, In (p, k, al) (sleaves defaults_schema) -> literal_holds p k = true.
+Proof. exact literal_forall. Qed.
+Print Assumptions fresh_settings_hold_the_literal_defaults.
+
+Theorem reset_restores_partial :
+  forall p k al v n,
+    In (p, k, al) (sleaves defaults_schema) -> in_literal p = true -> shadowed defaults_schema p = false ->
+    In v (two k) -> In n (notations_coarse p) -> reset_holds p v n = true.
+Proof. exact reset_forall. Qed.
+Print Assumptions reset_restores_partial.
+
+(* reset() restores NO leaf that the DEFAULTS literal does not mention ... *)
+Theorem reset_outside_literal_refuted :
+  forall p k al v,
+    In (p, k, al) (sleaves defaults_schema) -> in_literal p = false -> In v (two k) ->
+    reset_holds p v NAttr = false.
+Proof. exact reset_outside_forall. Qed.
+Print Assumptions reset_outside_literal_refuted.
+
+(* ... and not the alias-shadowed arrow size either *)
+Theorem reset_alias_refuted :
+  In (p_msize, KNumGe0, false) (sleaves defaults_schema) /\ in_literal p_msize = true /\
+  In (VInt 2) (two KNumGe0) /\ reset_holds p_msize (VInt 2) NAttr = false.
+Proof. exact reset_alias_witness. Qed.
+Print Assumptions reset_alias_refuted.
+
+Theorem constructors_forward_style :
+  forall cls ok why, In (cls, (ok, why)) ctor_style -> ok = true.
+Proof. exact ctor_forall. Qed.
+Print Assumptions constructors_forward_style.
+
+(* non-vacuity: the quantifiers above range over non-empty sets, and the hypotheses are satisfiable *)
+Example c20_nonvacuous :
+  List.length style_classes = 8 /\ List.length (sleaves defaults_schema) = 158 /\
+  List.length (sleaves schema_MagnetStyle) = 33 /\
+  shadowed schema_MagnetStyle ["magnetization"; "arrow"; "color"] = false /\
+  In NAttr (notations ["magnetization"; "arrow"; "color"]) /\
+  two KColor = [VStr "red"; VStr "blue"] /\
+  List.length all_sources = 16 /\ List.length public_classes = 16 /\
+  reset_outside_literal_witness_exists = true.
+Proof. exact c20_nonvacuous_proof. Qed.
+Print Assumptions c20_nonvacuous.
